@@ -46,6 +46,17 @@ type Request struct {
 	Arrival    int64    // logical clock
 	Release    int64
 	Selected   []string // coordinates "Type.field" selected by the request (resolved positions)
+	// Resolved: keys (ProvKey) of every field position this request resolved (type, object id, field, arguments)
+	Resolved map[string]bool
+}
+
+// ProvKey identifies one resolved field position independently of where it is resolved.
+func ProvKey(typeName, objID, field string, args map[string]any) string {
+	a := ""
+	if len(args) > 0 {
+		a = ref.Canon(args)
+	}
+	return typeName + "|" + objID + "|" + field + "|" + a
 }
 
 // LoadSubgraphSchema loads the subgraph SDL with the federation prelude and _entities.
@@ -84,6 +95,7 @@ type resolver struct {
 	mu       sync.Mutex
 	problems []string
 	selected map[string]bool
+	resolved map[string]bool
 	// provided: object identity → set of externally owned fields that may be answered on this path
 	provided map[*ref.Obj]map[string]bool
 }
@@ -107,6 +119,9 @@ func (r *resolver) Resolve(obj *ref.Obj, parentDef *gast.Definition, fd *gast.Fi
 	if r.selected != nil {
 		r.mu.Lock()
 		r.selected[c] = true
+		if r.resolved != nil {
+			r.resolved[ProvKey(obj.Type, obj.ID, fd.Name, args)] = true
+		}
 		r.mu.Unlock()
 	}
 	_, isEntity := r.l.Entities[obj.Type]
@@ -233,7 +248,7 @@ func (s *Server) Handle(body []byte) (response []byte, rec Request) {
 		rec.Problems = append(rec.Problems, "variables are not coercible for the subgraph operation: "+cerr.Error())
 		return []byte(`{"errors":[{"message":"invalid variables"}]}`), rec
 	}
-	rs := &resolver{l: s.L, sub: s.Sub, u: s.U, selected: map[string]bool{}, provided: map[*ref.Obj]map[string]bool{}}
+	rs := &resolver{l: s.L, sub: s.Sub, u: s.U, selected: map[string]bool{}, resolved: map[string]bool{}, provided: map[*ref.Obj]map[string]bool{}}
 	ex := &ref.Executor{Schema: s.Schema, Resolver: rs, Vars: vars}
 	data := map[string]any{}
 	rootName := "Query"
@@ -307,6 +322,7 @@ func (s *Server) Handle(body []byte) (response []byte, rec Request) {
 		rec.Selected = append(rec.Selected, c)
 	}
 	sort.Strings(rec.Selected)
+	rec.Resolved = rs.resolved
 	out := map[string]any{"data": dataOut}
 	if len(ex.Errors) > 0 {
 		var es []map[string]any
